@@ -17,10 +17,12 @@ import (
 	"github.com/hyperledger/aries-framework-go/pkg/didcomm/common/service"
 	"github.com/hyperledger/aries-framework-go/pkg/didcomm/protocol/messagepickup"
 	"github.com/hyperledger/aries-framework-go/pkg/didcomm/transport/ws"
+	diddoc "github.com/hyperledger/aries-framework-go/pkg/doc/did"
 	mockdispatcher "github.com/hyperledger/aries-framework-go/pkg/mock/didcomm/dispatcher"
 	mockkms "github.com/hyperledger/aries-framework-go/pkg/mock/kms"
 	mockprovider "github.com/hyperledger/aries-framework-go/pkg/mock/provider"
 	"github.com/hyperledger/aries-framework-go/pkg/secretlock/noop"
+	didstore "github.com/hyperledger/aries-framework-go/pkg/store/did"
 	"github.com/hyperledger/aries-framework-go/pkg/wallet"
 	kmsapi "github.com/hyperledger/aries-framework-go/spi/kms"
 	spi "github.com/hyperledger/aries-framework-go/spi/storage"
@@ -678,6 +680,102 @@ func genMsg(r *hx.Rng, c *Case, g, n int) {
 	}
 }
 
+// ---------- DID store (pkg/store/did): a name may be given to one DID only ----------
+
+type didInst struct{ s *didstore.Store }
+
+func newDIDInst(_ Case, ct *ctl) (Inst, error) {
+	s, err := didstore.New(&mockprovider.Provider{StorageProviderValue: &yProvider{inner: mem.NewProvider(), c: ct}})
+	if err != nil {
+		return nil, err
+	}
+
+	return &didInst{s: s}, nil
+}
+
+func (w *didInst) Close() {}
+
+func (w *didInst) Exec(_ int, o *Op) (out Out) {
+	defer func() {
+		if r := recover(); r != nil {
+			out = Out{Kind: "panic", Err: fmt.Sprint(r)}
+		}
+	}()
+
+	name := fmt.Sprintf("name-%d", o.ID)
+
+	switch o.Kind {
+	case "dsave":
+		doc := &diddoc.Doc{Context: []string{diddoc.ContextV1}, ID: fmt.Sprintf("did:example:%d", o.M)}
+		if err := w.s.SaveDID(name, doc); err != nil {
+			return Out{Kind: "err", Err: err.Error()}
+		}
+
+		return Out{Kind: "id", S: impID(o.ID)}
+	case "dbyname":
+		id, err := w.s.GetDIDByName(name)
+		if err != nil {
+			if errors.Is(err, spi.ErrDataNotFound) {
+				return Out{Kind: "notfound"}
+			}
+
+			return Out{Kind: "err", Err: err.Error()}
+		}
+
+		var m int
+		if n, _ := fmt.Sscanf(id, "did:example:%d", &m); n != 1 {
+			m = 77
+		}
+
+		return Out{Kind: "mat", V: m}
+	}
+
+	return Out{Kind: "err"}
+}
+
+// the DID store is the key manager's specification with other names: save = import with a requested id
+type didModel struct{ kmsModel }
+
+func (d didModel) Step(st State, o Op, got Out) (State, bool) {
+	k := Op{Kind: "import", ID: o.ID, M: o.M}
+	if o.Kind == "dbyname" {
+		k = Op{Kind: "kget", ID: o.ID, Ref: impID(o.ID)}
+	}
+
+	return d.kmsModel.Step(st, k, got)
+}
+
+func coqDID(c Case, h []Ev, w []int) string {
+	hh := make([]Ev, len(h))
+	for i, e := range h {
+		hh[i] = e
+		if e.Op.Kind == "dsave" {
+			hh[i].Op.Kind = "import"
+		} else {
+			hh[i].Op.Kind, hh[i].Op.Ref = "kget", impID(e.Op.ID)
+		}
+	}
+
+	return coqKMS(c, hh, w)
+}
+
+func genDID(r *hx.Rng, c *Case, g, n int) {
+	c.Threads = make([][]Op, g)
+	m := 0
+
+	for t := 0; t < g; t++ {
+		for i := 0; i < n; i++ {
+			m++
+
+			if r.Intn(5) < 3 {
+				c.Threads[t] = append(c.Threads[t], Op{Kind: "dsave", ID: 1 + r.Intn(2), M: m})
+			} else {
+				c.Threads[t] = append(c.Threads[t], Op{Kind: "dbyname", ID: 1 + r.Intn(2)})
+			}
+		}
+	}
+}
+
 // ---------- provider level: OpenStore / SetStoreConfig / GetStoreConfig / GetOpenStores + operations through handles ----------
 
 type provInst struct {
@@ -1014,6 +1112,10 @@ func coqProv(_ Case, h []Ev, w []int) string {
 // restricted: formatting providers keep the configuration in a side store (it shows up in GetOpenStores, and
 // GetStoreConfig before any SetStoreConfig is an error): those two operations are left out for them
 func provRestricted(st Stack) bool {
+	if st.Base == "leveldb" {
+		return true // GetStoreConfig before any SetStoreConfig is an error there
+	}
+
 	for _, w := range st.Wraps {
 		if w.Kind == "fmt" {
 			return true
@@ -1059,6 +1161,7 @@ func genProv(r *hx.Rng, c *Case, g, n int) {
 func provStacks() []Stack {
 	return []Stack{
 		{Raw: true},
+		{Base: "leveldb", Raw: true},
 		{Wraps: []Wrap{{Kind: "cached"}}},
 		{Wraps: []Wrap{{Kind: "batched", Limit: 3}}},
 		{Wraps: []Wrap{{Kind: "batched", Limit: 1}}},
@@ -1483,6 +1586,7 @@ func components() map[string]*Comp {
 			Model: func(Case) Model { return sessModel{} }, Gen: genSess, Coq: coqSess,
 		},
 		"prov":  {Name: "prov", Forced: true, New: newProvInst, Model: func(Case) Model { return provModel{} }, Gen: genProv, Coq: coqProv},
+		"did":   {Name: "did", Forced: true, New: newDIDInst, Model: func(Case) Model { return didModel{} }, Gen: genDID, Coq: coqDID},
 		"msg":   {Name: "msg", Forced: true, New: newMsgInst, Model: func(Case) Model { return msgModel{} }, Gen: genMsg, Coq: coqMsg},
 		"reg":   {Name: "reg", New: newRegInst, Model: func(Case) Model { return regModel{} }, Gen: genReg, Coq: coqReg},
 		"inbox": {Name: "inbox", Forced: true, New: newInboxInst, Model: func(Case) Model { return inboxModel{} }, Gen: genInbox, Coq: coqInbox},
